@@ -798,3 +798,67 @@ func mixedShape(container, child, after string) func(b *builder) []*node {
 		return one(c)
 	}
 }
+
+// ---- leaf-like elements with inner elements ----------------------------------------------------------------
+//
+// The text of a leaf-like element (pre, code, heading, p, blockquote, li, td) is its whole text, wherever inner
+// inline elements sit: text only, one inner element covering everything, text before / after an inner element,
+// two inner elements, one inner element per line. Every piece (bare text, inner element) carries its own token.
+
+var leafOuters = []struct {
+	tag    string
+	inners []string
+}{
+	{"pre", []string{"code", "span", "a", "samp"}},
+	{"code", []string{"span", "b"}},
+	{"h2", []string{"span", "a", "code"}},
+	{"p", []string{"a", "em", "code"}},
+	{"blockquote", []string{"cite", "code"}},
+	{"li", []string{"a", "code"}},
+	{"td", []string{"code", "a"}},
+}
+
+var leafLayouts = []string{"text", "inner", "text+inner", "inner+text", "inner+inner", "inner-per-line"}
+
+func leafLike(outer, inner, layout string) func(b *builder) []*node {
+	return func(b *builder) []*node {
+		o := el(outer)
+		in := func() *node {
+			n := el(inner)
+			if inner == "a" {
+				n.with("href", "#")
+				b.noA = true
+			}
+			pieces, tok := b.inline()
+			b.noA = false
+			for _, p := range pieces {
+				n.add(p)
+			}
+			n.tok, n.kind = tok, outer+"/"+inner
+			return n
+		}
+		txt := func() *node { return tokText(b, outer+"/text") }
+		sep := " "
+		switch layout {
+		case "text":
+			o.add(txt())
+		case "inner":
+			o.add(in())
+		case "text+inner":
+			o.add(txt()).add(raw(sep)).add(in())
+		case "inner+text":
+			o.add(in()).add(raw(sep)).add(txt())
+		case "inner+inner":
+			o.add(in()).add(raw(sep)).add(in())
+		case "inner-per-line":
+			o.add(txt()).add(raw("\n")).add(in()).add(raw("\n")).add(in()).add(raw("\n")).add(in()).add(raw("\n")).add(txt())
+		}
+		switch outer {
+		case "li":
+			return one(el("ul", o, pli(b, 1)))
+		case "td":
+			return one(el("table", el("tr", o, b.leaf("td", "td@tbody"))))
+		}
+		return one(o)
+	}
+}
